@@ -164,9 +164,10 @@ def main():
     if keep:
         dst = os.path.join(ROOT, "seeded", keep)
         os.makedirs(dst, exist_ok=True)
-        shutil.copy(os.path.join(mdir, "patch.diff"), dst)
         demo, dpath = demo_path(mdir)
-        shutil.copy(demo, os.path.join(dst, os.path.basename(demo)))
+        if os.path.abspath(dst) != os.path.abspath(mdir):
+            shutil.copy(os.path.join(mdir, "patch.diff"), dst)
+            shutil.copy(demo, os.path.join(dst, os.path.basename(demo)))
         meta.update({
             "breaks_property": meta["property"],
             "confirmed": conf,
